@@ -8,8 +8,9 @@ VARIANTS = {
     "kept_for_the_decoder": ["valid"],
     "extract": ["valid", "bad-signature"],
     "multipart.field": ["field-whitespace", "valid"],
+    "aggregate": ["unterminated-file", "binary-file", "valid"],
 }
-ALL = ["valid", "binary-file", "field-whitespace", "bad-signature", "other-secret"]
+ALL = ["valid", "binary-file", "field-whitespace", "unterminated-file", "bad-signature", "other-secret"]
 def _run(ctx, variants):
     res = None
     for v in variants:
